@@ -65,7 +65,8 @@ example : (LenForm.minimal 125, LenForm.minimal 126, LenForm.minimal 65535, LenF
 
 /-- **Header decoding per RFC 6455 §5.2.**  From the header phase, for every FIN/RSV/opcode, with or
     without a masking key (every key), in each of the three length forms the length fits in (minimal or
-    not), for every payload the read buffer can hold that is not an oversized control frame: running
+    not), for every payload the read buffer can hold, provided the header passes
+    `is_frame_header_invalid` (see `header_valid_iff`; otherwise `header_invalid_refused`): running
     the machine over the frame's bytes followed by `rest` hands exactly `(fin, rsv, opcode, mask)` and
     the *unmasked* payload to `ws_get_payload` (`frameOutcome`), then continues on `rest`. -/
 theorem header_spec (c : Conf) (hw0 : 0 < c.word) (hw : c.word % 4 = 0) (hbuf : 8 ≤ c.bufSize) (a : Nat)
@@ -74,13 +75,14 @@ theorem header_spec (c : Conf) (hw0 : 0 < c.word) (hw : c.word % 4 = 0) (hbuf : 
     (key : Option Bytes) (hk : ∀ k, key = some k → k.length = 4)
     (form : LenForm) (payload : Bytes) (hfit : form.fits payload.length)
     (hlen : payload.length ≤ c.bufSize)
-    (hctl : ¬ (opcode ≥ opClose ∧ payload.length > wsSmallFrameSize)) (rest : Bytes) :
+    (hvalid : headerInvalid c { s.flags with fin := fin, rsv := rsv, opcode := opcode, mask := key.isSome }
+      payload.length = false) (rest : Bytes) :
     run c a s (wire fin rsv opcode key form payload ++ rest) =
       (let fl : Flags := { s.flags with fin := fin, rsv := rsv, opcode := opcode, mask := key.isSome }
        let s2 : St := { s with flags := fl, length := payload.length, key := key.getD s.key }
        let r := afterPayload s2 (frameOutcome c fl payload)
        seqRun r (run c a r.1 rest)) := by
-  rw [run_wire c a s hs hbuf fin rsv opcode key hk form payload hr ho hfit hlen hctl rest]
+  rw [run_wire c a s hs hbuf fin rsv opcode key hk form payload hr ho hfit hlen hvalid rest]
   have hd : s.deliver c a fin rsv opcode key payload =
       afterPayload { s with flags := { s.flags with fin := fin, rsv := rsv, opcode := opcode, mask := key.isSome },
                             length := payload.length, key := key.getD s.key }
@@ -95,19 +97,93 @@ example :
       (wire true 0 opText (some [1, 2, 3, 4]) .ext16 [104, 105] ++ [0x81])).2.2 = [Action.textMessage [104, 105]] := by
   decide +kernel
 
-/-- A payload longer than the read buffer is never delivered: the reader's error handler runs
-    (close frame 1001 from `free_websocket_peer_on_error`), whatever the opcode of a *data* frame. -/
-theorem oversize_payload_error_handler (c : Conf) (hbuf : 8 ≤ c.bufSize) (a : Nat) (s : St) (hs : s.phase = .header)
+/-- what `is_frame_header_invalid` lets pass -/
+theorem header_valid_iff (c : Conf) (f : Flags) (len : Nat) :
+    headerInvalid c f len = false ↔
+      (c.isServer = true → f.mask = true) ∧ (f.rsv = 0 ∨ c.extAccepted = true) ∧
+      (f.opcode ≤ opBinary ∨ (opClose ≤ f.opcode ∧ f.opcode ≤ opPong ∧ f.fin = true ∧ len ≤ wsSmallFrameSize)) := by
+  simp only [headerInvalid, opBinary, opClose, opPong, wsSmallFrameSize]
+  by_cases h8 : f.opcode ≥ 8 <;> by_cases h10 : f.opcode > 10 <;> by_cases h2 : f.opcode > 2 <;>
+    by_cases hl : len > 125 <;> by_cases hr : f.rsv = 0 <;>
+    cases c.isServer <;> cases f.mask <;> cases c.extAccepted <;> cases f.fin <;>
+    simp [h8, h10, h2, hl, hr] <;> omega
+
+/-- **Header-level protocol errors → 1002, before any payload byte is requested** (hence also when the
+    declared length exceeds the read buffer): for every header that `is_frame_header_invalid` rejects,
+    in each length form, the run over the header bytes ends with exactly `handle_error(1002)`; whatever
+    follows is not consumed. -/
+theorem header_invalid_refused (c : Conf) (hbuf : 8 ≤ c.bufSize) (a : Nat) (s : St) (hs : s.phase = .header)
     (fin : Bool) (rsv opcode : Nat) (hr : rsv < 8) (ho : opcode < 16) (masked : Bool) (form : LenForm) (len : Nat)
-    (hfit : form.fits len) (hdata : opcode < opClose) (hbig : c.bufSize < len) (hm : masked = false) (rest : Bytes) :
-    (run c a s (wireHeader fin rsv opcode masked form len ++ rest)).2.2 = errorHandler c := by
-  subst hm
-  rw [run_header c a s hs hbuf fin rsv opcode false form len hr ho hfit rest]
-  have h1 : ¬ ((s.withHeader fin rsv opcode false len).flags.opcode ≥ opClose ∧
-      (s.withHeader fin rsv opcode false len).length > wsSmallFrameSize) := by
-    simp only [St.withHeader]; omega
-  rw [readMaskOrPayload_unmasked_pos c a _ h1 rfl (by simp only [St.withHeader]; omega), seqRun_nil]
-  rw [run_toomuch c a _ rest (by simp) (by simp only [St.want, St.withHeader]; omega)]
+    (hfit : form.fits len)
+    (hinv : headerInvalid c { s.flags with fin := fin, rsv := rsv, opcode := opcode, mask := masked } len = true)
+    (rest : Bytes) :
+    (run c a s (wireHeader fin rsv opcode masked form len ++ rest)).2.2 = handleError c closeProtocolError ∧
+    (run c a s (wireHeader fin rsv opcode masked form len ++ rest)).1.phase = .closed ∧
+    (run c a s (wireHeader fin rsv opcode masked form len ++ rest)).2.1 = rest := by
+  rw [run_header c a s hs hbuf fin rsv opcode masked form len hr ho hfit rest]
+  rw [readMaskOrPayload_invalid c a _ hinv, run_closed c a _ rest rfl]
+  simp [seqRun]
+
+/-- The table of header-level errors the property names: an unmasked client frame, a reserved bit
+    without a negotiated extension, a reserved opcode (3-7, 11-15), a fragmented control frame, a
+    control frame longer than 125 bytes — each makes `is_frame_header_invalid` true, so by
+    `header_invalid_refused` the connection ends with close frame 1002. -/
+theorem close_code_header_table (c : Conf) (f : Flags) (len : Nat)
+    (h : (c.isServer = true ∧ f.mask = false) ∨
+         (f.rsv ≠ 0 ∧ c.extAccepted = false) ∨
+         (opBinary < f.opcode ∧ f.opcode < opClose) ∨ opPong < f.opcode ∨
+         (opClose ≤ f.opcode ∧ f.fin = false) ∨
+         (opClose ≤ f.opcode ∧ len > wsSmallFrameSize)) :
+    headerInvalid c f len = true := by
+  cases hv : headerInvalid c f len with
+  | true => rfl
+  | false =>
+    exfalso
+    have := (header_valid_iff c f len).mp hv
+    simp only [opBinary, opClose, opPong, wsSmallFrameSize] at this h
+    obtain ⟨h1, h2, h3⟩ := this
+    rcases h with ⟨hs, hm⟩ | ⟨hr, hx⟩ | ⟨ha, hb⟩ | hp | ⟨hc, hf⟩ | ⟨hc, hl⟩
+    · simp [h1 hs] at hm
+    · rcases h2 with h2 | h2
+      · exact hr h2
+      · simp [h2] at hx
+    · omega
+    · omega
+    · rcases h3 with h3 | ⟨_, _, h3, _⟩
+      · omega
+      · simp [h3] at hf
+    · omega
+
+example : headerInvalid { cbs := daemonCallbacks (fun _ => true), utf8Valid := fun _ => true, bufSize := 512 }
+    { fin := true, opcode := opPing, mask := true } 126 = true := by decide
+
+/-- A *data* frame whose header is acceptable but whose payload is longer than the read buffer is never
+    delivered: the reader's error handler runs (close frame 1001 from `free_websocket_peer_on_error`). -/
+theorem oversize_payload_error_handler (c : Conf) (hbuf : 8 ≤ c.bufSize) (a : Nat) (s : St) (hs : s.phase = .header)
+    (fin : Bool) (rsv opcode : Nat) (hr : rsv < 8) (ho : opcode < 16) (key : Option Bytes)
+    (hk : ∀ k, key = some k → k.length = 4) (form : LenForm) (len : Nat)
+    (hfit : form.fits len) (hbig : c.bufSize < len)
+    (hvalid : headerInvalid c { s.flags with fin := fin, rsv := rsv, opcode := opcode, mask := key.isSome } len = false)
+    (rest : Bytes) :
+    (run c a s (wireHeader fin rsv opcode key.isSome form len ++ key.getD [] ++ rest)).2.2 = errorHandler c := by
+  rw [List.append_assoc, run_header c a s hs hbuf fin rsv opcode key.isSome form len hr ho hfit]
+  cases key with
+  | none =>
+    simp only [Option.isSome_none, Option.getD_none, List.nil_append] at hvalid ⊢
+    rw [readMaskOrPayload_unmasked_pos c a _ hvalid rfl (by simp only [St.withHeader]; omega), seqRun_nil]
+    rw [run_toomuch c a _ rest (by simp) (by simp only [St.want, St.withHeader]; omega)]
+  | some k =>
+    have hk4 : k.length = 4 := hk k rfl
+    simp only [Option.isSome_some, Option.getD_some] at hvalid ⊢
+    rw [readMaskOrPayload_masked c a _ hvalid rfl, seqRun_nil]
+    generalize hs1 : ({ s.withHeader fin rsv opcode true len with phase := Phase.mask } : St) = s1
+    have hp1 : s1.phase = .mask := by rw [← hs1]
+    have hl1 : s1.length = len := by rw [← hs1]; rfl
+    rw [run_exact c a s1 k rest (by simp [hp1]) (by simp [St.want, hp1, maskBytes]; omega)
+      (by simp [St.want, hp1, maskBytes]) (by simp [St.want, hp1, maskBytes, hk4])]
+    have hpos : s1.length > 0 := by omega
+    simp only [feed, hp1, hpos, if_true, seqRun_nil]
+    rw [run_toomuch c a _ rest (by simp) (by simp only [St.want]; omega)]
 
 /-- **Segmentation independence.**  However the byte stream is cut into pieces, the machine ends in the
     same state with the same unconsumed bytes and has performed the same actions as on the whole stream. -/
@@ -158,7 +234,7 @@ theorem decode_encode (c : Conf) (hcl : c.isServer = false) (hw0 : 0 < c.word) (
     (hbuf : 8 ≤ c.bufSize) (a : Nat) (s : St) (hs : s.phase = .header)
     (word align : Nat) (key : Bytes) (typ : Nat) (ht : typ < 16) (payload : Bytes)
     (hlen : payload.length ≤ c.bufSize) (hl64 : payload.length < 18446744073709551616)
-    (hctl : ¬ (typ ≥ opClose ∧ payload.length > wsSmallFrameSize))
+    (hctl : typ ≤ opBinary ∨ (opClose ≤ typ ∧ typ ≤ opPong ∧ payload.length ≤ wsSmallFrameSize))
     (rest : Bytes) :
     run c a s (sendFrame true word align key typ payload ++ rest) =
       (let fl : Flags := { s.flags with fin := true, rsv := 0, opcode := typ, mask := false }
@@ -166,8 +242,15 @@ theorem decode_encode (c : Conf) (hcl : c.isServer = false) (hw0 : 0 < c.word) (
        let r := afterPayload s2 (payloadResult c (wsHandleFrame c fl payload))
        seqRun r (run c a r.1 rest)) := by
   rw [sendFrame_server_eq_wire word align key typ ht payload]
+  have hv : headerInvalid c { s.flags with fin := true, rsv := 0, opcode := typ, mask := (none : Option Bytes).isSome }
+      payload.length = false := by
+    rw [header_valid_iff]
+    refine ⟨by simp [hcl], Or.inl rfl, ?_⟩
+    rcases hctl with h | ⟨h1, h2, h3⟩
+    · exact Or.inl h
+    · exact Or.inr ⟨h1, h2, rfl, h3⟩
   rw [header_spec c hw0 hw hbuf a s hs true 0 typ (by omega) ht none (by simp) _ payload
-    (minimal_fits _ hl64) hlen hctl rest]
+    (minimal_fits _ hl64) hlen hv rest]
   simp [frameOutcome, hcl]
 
 /-- A frame built by `send_frame` in client mode (masked with any 4 byte key, payload at any alignment),
@@ -177,7 +260,7 @@ theorem decode_encode_masked (c : Conf) (hw0 : 0 < c.word) (hw : c.word % 4 = 0)
     (word : Nat) (hw0' : 0 < word) (hw' : word % 4 = 0) (align : Nat) (key : Bytes) (hk : key.length = 4)
     (typ : Nat) (ht : typ < 16) (payload : Bytes)
     (hlen : payload.length ≤ c.bufSize) (hl64 : payload.length < 18446744073709551616)
-    (hctl : ¬ (typ ≥ opClose ∧ payload.length > wsSmallFrameSize))
+    (hctl : typ ≤ opBinary ∨ (opClose ≤ typ ∧ typ ≤ opPong ∧ payload.length ≤ wsSmallFrameSize))
     (rest : Bytes) :
     run c a s (sendFrame false word align key typ payload ++ rest) =
       (let fl : Flags := { s.flags with fin := true, rsv := 0, opcode := typ, mask := true }
@@ -185,8 +268,15 @@ theorem decode_encode_masked (c : Conf) (hw0 : 0 < c.word) (hw : c.word % 4 = 0)
        let r := afterPayload s2 (payloadResult c (wsHandleFrame c fl payload))
        seqRun r (run c a r.1 rest)) := by
   rw [sendFrame_client_eq_wire word hw0' hw' align key hk typ ht payload]
+  have hv : headerInvalid c { s.flags with fin := true, rsv := 0, opcode := typ, mask := (some key).isSome }
+      payload.length = false := by
+    rw [header_valid_iff]
+    refine ⟨by simp, Or.inl rfl, ?_⟩
+    rcases hctl with h | ⟨h1, h2, h3⟩
+    · exact Or.inl h
+    · exact Or.inr ⟨h1, h2, rfl, h3⟩
   rw [header_spec c hw0 hw hbuf a s hs true 0 typ (by omega) ht (some key) (by intro k h; cases h; exact hk) _ payload
-    (minimal_fits _ hl64) hlen hctl rest]
+    (minimal_fits _ hl64) hlen hv rest]
   simp [frameOutcome]
 
 
@@ -261,22 +351,7 @@ theorem close_code_fragmented_control (c : Conf) (hx : c.extAccepted = false) (f
   · simp [wsHandleFrame, rsvCheck, hr, hfin, hop, refuse, HandleResult.refusedWith]
   · exact close_code_rsv c hx f hr p
 
-/-- a control frame whose declared length exceeds 125 → 1002 as soon as the length is known, before
-    any payload byte is requested (so also when the length exceeds the read buffer) — for each of the
-    three length forms, masked or not -/
-theorem close_code_control_too_long (c : Conf) (hbuf : 8 ≤ c.bufSize) (a : Nat) (s : St) (hs : s.phase = .header)
-    (fin : Bool) (rsv opcode : Nat) (hr : rsv < 8) (ho : opcode < 16) (masked : Bool) (form : LenForm) (len : Nat)
-    (hfit : form.fits len) (hctl : opcode ≥ opClose) (hbig : len > wsSmallFrameSize) (rest : Bytes) :
-    (run c a s (wireHeader fin rsv opcode masked form len ++ rest)).2.2 = handleError c closeProtocolError ∧
-    (run c a s (wireHeader fin rsv opcode masked form len ++ rest)).1.phase = .closed := by
-  rw [run_header c a s hs hbuf fin rsv opcode masked form len hr ho hfit rest]
-  have hrm : readMaskOrPayload c a (s.withHeader fin rsv opcode masked len) =
-      ({ s.withHeader fin rsv opcode masked len with phase := .closed }, handleError c closeProtocolError) := by
-    simp [readMaskOrPayload, St.withHeader, hctl, hbig]
-  rw [hrm, run_closed c a _ rest rfl]
-  simp [seqRun]
-
-/-- … and the dispatcher itself refuses a ping or pong payload above 125 with 1002 -/
+/-- the dispatcher itself also refuses a ping or pong payload above 125 with 1002 -/
 theorem close_code_ping_pong_too_long (c : Conf) (f : Flags) (hfin : f.fin = true) (hrsv : f.rsv = 0)
     (hop : f.opcode = opPing ∨ f.opcode = opPong) (p : Bytes) (hp : p.length > wsSmallFrameSize) :
     (wsHandleFrame c f p).refusedWith c closeProtocolError := by
